@@ -85,3 +85,16 @@ M("arc-flag-check-removed", ["C09"], "absolute A accepts a missing flag again",
 """, """                        self._coord(),
                     )
 """))
+
+# ---- arcs (C05) ------------------------------------------------------------------------------------------
+M("arc-flag-equality-flipped", ["C05", "C01"], "centre chosen on the wrong side", ("        if large_arc_flag == sweep_flag:\n            c = -c", "        if large_arc_flag != sweep_flag:\n            c = -c"))
+M("arc-delta-no-modulo", ["C05", "C01"], "delta % 360 dropped", ("        delta = delta % 360\n        if not sweep_flag:", "        if not sweep_flag:"))
+M("arc-acos-clamp-removed", ["C05"], "acos clamp removed (math domain error on half turns)",
+  ("        if d > 1.0:\n            d = 1.0\n        elif d < -1.0:\n            d = -1.0\n        delta = degrees(acos(d))", "        delta = degrees(acos(d))"))
+M("arc-radius-correction-strict", ["C05"], "radii scaled up only when far too small",
+  ("        if radius_check > 1:\n            rx *= sqrt(radius_check)", "        if radius_check > 1.5:\n            rx *= sqrt(radius_check)"))
+M("arc-abs-radii-removed", ["C05"], "negative radii no longer absolute", ("        rx = abs(rx)\n        ry = abs(ry)\n        cosr = cos(radians(rotation))", "        cosr = cos(radians(rotation))"))
+M("arc-zero-radius-length", ["C05"], "zero-radius arc has length 0 again",
+  ("            if self.start is None or self.end is None:\n                return 0\n            return Point.distance(self.start, self.end)", "            return 0"))
+M("arc-rotation-radians", ["C05", "C01"], "rotation used without degree conversion for prx/pry",
+  ("            Angle.degrees(rotation).as_radians, center.x, center.y", "            Angle.radians(rotation).as_radians, center.x, center.y"))
